@@ -111,8 +111,9 @@ def small_asts(thorough):
 class C04(common.Prop):
     id = 'C04'
     level = 'proof'
-    technique = ('Coq: simulation theorem ReaderImpl(print a) = denote a (staged), bounded-exhaustive theorem over the '
-                 'enumerated small ASTs, refutation witnesses for the known defect classes; per-run correspondence of '
+    technique = ('Coq: unbounded simulation theorem ReaderImpl(print a) = denote a for the grammar outside the defect classes '
+                 '(C04_partial, both text kinds), ring-table invariant, bounded-exhaustive theorem over the enumerated small ASTs, '
+                 'refutation witnesses for the known defect classes; per-run correspondence of '
                  'the hand-written reader model with read_cgsmiles and evaluation of the Coq denotation on the '
                  "implementation's output")
     vo_deps = ['theories/Reader/ReaderCheck.vo']
@@ -189,6 +190,6 @@ class C04(common.Prop):
         return 0 if (nodes == d['nodes'] and edges == d['edges']) else 1
 
 
-C04.fail_text.update({n + 10 * k: C04.fail_text[n] + ' [inside known defect class %s, but not with the analysed behaviour]' % c
+C04.fail_text.update({n + 10 * k: C04.fail_text[n] + ' [input lies in known defect class %s]' % c
                      for k, c in CLASSES_C04.items() for n in (1, 2)})
 PROP = C04()
